@@ -27,7 +27,7 @@ MONITORS = [
     ),
     # ---- C26 -------------------------------------------------------------------------------
     MonitorContract(
-        name="SerialDisposable", props=["C26", "C03"], file=D + "serialdisposable.py", cls="SerialDisposable",
+        name="SerialDisposable", props=["C26", "C02", "C03"], file=D + "serialdisposable.py", cls="SerialDisposable",
         fields={"current": "optref", "is_disposed": "bool", "lock": "lock"},
         inv="implies(is_disposed, current is None)",
         rely=MONO,
@@ -37,7 +37,7 @@ MONITORS = [
         witness="serial",
     ),
     MonitorContract(
-        name="SingleAssignmentDisposable", props=["C26", "C03"], file=D + "singleassignmentdisposable.py",
+        name="SingleAssignmentDisposable", props=["C26", "C02", "C03"], file=D + "singleassignmentdisposable.py",
         cls="SingleAssignmentDisposable",
         fields={"current": "optref", "is_disposed": "bool", "lock": "lock"},
         inv="implies(is_disposed, current is None)",
@@ -63,7 +63,7 @@ MONITORS = [
         witness="multiple",
     ),
     MonitorContract(
-        name="CompositeDisposable", props=["C26", "C02"], file=D + "compositedisposable.py", cls="CompositeDisposable",
+        name="CompositeDisposable", props=["C26", "C02", "C03"], file=D + "compositedisposable.py", cls="CompositeDisposable",
         fields={"disposable": "reflist", "is_disposed": "bool", "lock": "lock"},
         inv="implies(is_disposed, len(disposable) == 0)",
         rely=MONO,
@@ -74,7 +74,7 @@ MONITORS = [
     ),
     # ---- C27 -------------------------------------------------------------------------------
     MonitorContract(
-        name="RefCountDisposable", props=["C27", "C02"], file=D + "refcountdisposable.py", cls="RefCountDisposable",
+        name="RefCountDisposable", props=["C27", "C02", "C03"], file=D + "refcountdisposable.py", cls="RefCountDisposable",
         fields={"underlying_disposable": "effectref:underlying", "is_primary_disposed": "bool", "is_disposed": "bool",
                 "count": "int", "lock": "lock"},
         # count = number of handed-out, undisposed dependents; released exactly when primary and none left
